@@ -17,11 +17,28 @@
    event = (0 tag ((key value) ...)) | (1 tag)
    spec  = () | ((methods) (signals) (properties)): when every signature of the
            declaration was given as type trees, what Spec/IntrospectSpec.v says
-           an observer must see (per declared member name, the last declaration) *)
+           an observer must see (per declared member name, the last declaration)
+
+   (15 1 name (hop ...)) runs a history of calls on one object made by
+   DBusInterface(name, noRegister=True) (Model/IfaceCache.v: members + cached XML).
+
+   hop                                    answer
+   (0 decl)                               () | (0 code)     addMethod/addSignal/addProperty(<new member object>)
+   (1 kind name)                          () | (0 code)     delMethod(0) / delSignal(1) / delProperty(2) (name)
+   (2)                                    (1 (event ...) spec) | (0 code)          _getXml()
+   (3 path)                               (1 (event ...) object spec) | (2 (event ...) code) | (0 code)
+                                          generateIntrospectionXML(path, {path: exporter of the object}), then
+                                          getInterfacesFromXML(document, True): the document and the first parsed object
+   (4 target lit)                         () | (0 code)     addMethod(0)/addSignal(1)/addProperty(2) (given object)
+   lit  = (0 name nargs nret sigIn sigOut) | (1 name nargs sig) | decl of a property
+   spec = () | (((methods) (signals) (properties))): the definition in force (Spec/IntrospectSpec.v in_force)
+          while every successful addition so far was a (0 decl) with type trees
+   The final answer is ((answer ...) object spec). *)
 From Tx Require Import Lib.Base.
 From Tx Require Import Lib.Sexp.
 From Tx Require Import Model.SigSplit.
 From Tx Require Import Model.Introspect.
+From Tx Require Import Model.IfaceCache.
 From Tx Require Import Spec.SigTy.
 From Tx Require Import Spec.IntrospectSpec.
 Local Open Scope Z_scope.
@@ -235,8 +252,126 @@ Fixpoint do_steps (w : world) (steps : list sexp) (acc : list sexp) : option (li
       end
   end.
 
+(* --- histories on one object ------------------------------------------------------ *)
+
+Definition kind_in (z : Z) : option (kind * mkind) :=
+  if z =? 0 then Some (KMeth, IsMethod) else if z =? 1 then Some (KSig, IsSignal)
+  else if z =? 2 then Some (KProp, IsProperty) else None.
+
+Definition lit_in (s : sexp) : option member :=
+  match s with
+  | SList [SNum 0; n; SNum na; SNum nr; a; r] =>
+      match as_str n, as_str a, as_str r with
+      | Some n, Some a, Some r => Some (MMeth (mkMeth n na nr a r))
+      | _, _, _ => None
+      end
+  | SList [SNum 1; n; SNum na; a] =>
+      match as_str n, as_str a with
+      | Some n, Some a => Some (MSig (mkSgnl n na a))
+      | _, _ => None
+      end
+  | SList (SNum 2 :: _) =>
+      match decl_in s with
+      | Some (DProp n sg rd wr e, _) => Some (MProp (new_property n sg rd wr e))
+      | _ => None
+      end
+  | _ => None
+  end.
+
+Record hworld := mkHW {
+  hw_obj : cobj;
+  hw_typed : option (list tdecl) }.      (* the typed history's definition in force *)
+
+Definition spec_now (w : hworld) : sexp := sopt spec_out (hw_typed w).
+
+Definition obs_out (o : cobs) : sexp :=
+  match o with
+  | RNone => SList []
+  | RXml x => SList [SNum 1; SList (map event_out x)]
+  | RErr e => err_out e
+  end.
+
+(* a mutator: the call, and what it does to the typed definition when it succeeds *)
+Definition mutate (w : hworld) (o : cop) (f : option (list tdecl) -> option (list tdecl)) : sexp * hworld :=
+  let r := cstep (hw_obj w) o in
+  (obs_out (snd r),
+   mkHW (fst r) (match snd r with RErr _ => hw_typed w | _ => f (hw_typed w) end)).
+
+Definition do_hop (w : hworld) (s : sexp) : option (sexp * hworld) :=
+  match s with
+  | SList [SNum 0; d] =>
+      match decl_in d with
+      | Some (dc, td) =>
+          Some (mutate w (cop_add dc)
+                       (fun t => match t, td with
+                                 | Some ds, Some x => Some (in_force_step ds (HAdd x))
+                                 | _, _ => None
+                                 end))
+      | None => None
+      end
+  | SList [SNum 1; SNum k; n] =>
+      match kind_in k, as_str n with
+      | Some (mk, sk), Some n =>
+          Some (mutate w (ODel mk n) (option_map (fun ds => in_force_step ds (HDel sk n))))
+      | _, _ => None
+      end
+  | SList [SNum 2] =>
+      let r := get_xml (hw_obj w) in
+      Some (match snd r with
+            | Ok x => SList [SNum 1; SList (map event_out x); spec_now w]
+            | Err e => err_out e
+            end, mkHW (fst r) (hw_typed w))
+  | SList [SNum 3; path] =>
+      match as_str path with
+      | Some p =>
+          let r := export_doc p (hw_obj w) in
+          Some (match snd r with
+                | Ok evs =>
+                    match parse true [] [] evs with
+                    | Ok (id :: _, heap, _) =>
+                        match nth_error heap id with
+                        | Some i => SList [SNum 1; SList (map event_out evs); iface_out i; spec_now w]
+                        | None => SList [SNum 2; SList (map event_out evs); SNum 11]
+                        end
+                    | Ok ([], _, _) => SList [SNum 2; SList (map event_out evs); SNum 11]
+                    | Err e => SList [SNum 2; SList (map event_out evs); SNum (err_code e)]
+                    end
+                | Err e => err_out e
+                end, mkHW (fst r) (hw_typed w))
+      | None => None
+      end
+  | SList [SNum 4; SNum k; lit] =>
+      match kind_in k, lit_in lit with
+      | Some (mk, _), Some m =>
+          Some (mutate w (match mk with KMeth => OAddMethod m | KSig => OAddSignal m | KProp => OAddProperty m end)
+                       (fun _ => None))
+      | _, _ => None
+      end
+  | _ => None
+  end.
+
+Fixpoint do_hops (w : hworld) (hops : list sexp) (acc : list sexp) : option (list sexp * hworld) :=
+  match hops with
+  | [] => Some (rev acc, w)
+  | s :: r =>
+      match do_hop w s with
+      | None => None
+      | Some (a, w') => do_hops w' r (a :: acc)
+      end
+  end.
+
 Definition op (args : list sexp) : sexp :=
   match args with
+  | [SNum 1; name; SList hops] =>
+      match as_str name with
+      | None => bad
+      | Some n =>
+          match do_hops (mkHW (c_new n) (Some [])) hops [] with
+          | None => bad
+          | Some (answers, w) =>
+              SList [SList answers; iface_out (c_iface (hw_obj w)); spec_now w]
+          end
+      end
   | [SList steps] =>
       match do_steps (mkW [] [] None) steps [] with
       | None => bad
